@@ -322,3 +322,187 @@ Proof.
            exists i'. repeat split; auto; try lia.
            intros j Hj. destruct (Z.eq_dec j i) as [->|]; [fold mid; lia|]. apply I2. lia.
 Qed.
+
+(* ------------------------------------------------------------------ merge_sum_duplicates *)
+Lemma pow2_pos z : 0 <= z -> 0 < 2 ^ z.
+Proof. intros. apply Z.pow_pos_nonneg; lia. Qed.
+
+Lemma cnt_all_pos m d : 0 <= d -> (forall j, 0 <= j < d -> nthZ m j > 0) -> cnt m d = 2 ^ d - 1.
+Proof.
+  intros H0 H. unfold cnt. rewrite cnt_range_pos; try lia.
+  - rewrite Z2Nat.id by lia. simpl. lia.
+  - intros j Hj. apply H. lia.
+Qed.
+
+(* the state of the min stack after the carry stopped at the free level i' *)
+Lemma nthZ_carry m i' v j : 0 <= i' < zlen m ->
+  nthZ (upd (fill_prefix m i' (- v)) (Z.to_nat i') v) j =
+  if j =? i' then v else if (0 <=? j) && (j <? i') then - v else nthZ m j.
+Proof.
+  intros H. rewrite nthZ_upd by (rewrite zlen_fill_prefix; lia).
+  destruct (j =? i'); [reflexivity|]. apply nthZ_fill_prefix. lia.
+Qed.
+
+Lemma cnt_carry m d i' v : 0 <= i' < d -> d < zlen m -> 0 <= v ->
+  (forall j, 0 <= j < i' -> nthZ m j > 0) -> nthZ m i' <= 0 ->
+  cnt (upd (fill_prefix m i' (- v)) (Z.to_nat i') v) d <= cnt m d + 1.
+Proof.
+  intros Hi Hd Hv Hpos Hfree. unfold cnt.
+  set (m' := upd (fill_prefix m i' (- v)) (Z.to_nat i') v).
+  replace (Z.to_nat d) with (Z.to_nat i' + (1 + Z.to_nat (d - i' - 1)))%nat by lia.
+  rewrite !cnt_range_split. rewrite Z.add_0_l, !Z2Nat.id by lia.
+  (* below i' *)
+  rewrite (cnt_range_nonpos m').
+  2:{ intros j Hj. unfold m'. rewrite nthZ_carry by lia.
+      replace (j =? i') with false by (symmetry; apply Z.eqb_neq; lia).
+      replace ((0 <=? j) && (j <? i')) with true
+        by (symmetry; apply andb_true_iff; split; [apply Z.leb_le|apply Z.ltb_lt]; lia). lia. }
+  rewrite (cnt_range_pos m) by (try lia; intros; apply Hpos; lia).
+  (* at i' *)
+  simpl (cnt_range _ i' 1). unfold m' at 1. rewrite nthZ_carry by lia. rewrite Z.eqb_refl.
+  replace (nthZ m i' >? 0) with false by (symmetry; rewrite Z.gtb_ltb; apply Z.ltb_ge; lia).
+  (* above i' *)
+  rewrite (cnt_range_ext m' m).
+  2:{ intros j Hj. unfold m'. rewrite nthZ_carry by lia.
+      replace (j =? i') with false by (symmetry; apply Z.eqb_neq; lia).
+      replace ((0 <=? j) && (j <? i')) with false; [reflexivity|].
+      symmetry. apply andb_false_iff. right. apply Z.ltb_ge. lia. }
+  rewrite Z2Nat.id by lia. replace (0 + i') with i' by lia.
+  pose proof (pow2_pos i' ltac:(lia)). change (2 ^ 0) with 1. destruct (v >? 0); lia.
+Qed.
+
+Lemma cnt_newdepth m d v : 0 <= d -> d < zlen m -> 0 <= v ->
+  cnt (upd (fill_prefix m d (- v)) (Z.to_nat d) v) (d + 1) <= 2 ^ d.
+Proof.
+  intros Hd Hl Hv. unfold cnt.
+  set (m' := upd (fill_prefix m d (- v)) (Z.to_nat d) v).
+  replace (Z.to_nat (d + 1)) with (Z.to_nat d + 1)%nat by lia.
+  rewrite cnt_range_split. rewrite Z.add_0_l, Z2Nat.id by lia.
+  rewrite (cnt_range_nonpos m').
+  2:{ intros j Hj. unfold m'. rewrite nthZ_carry by lia.
+      replace (j =? d) with false by (symmetry; apply Z.eqb_neq; lia).
+      replace ((0 <=? j) && (j <? d)) with true
+        by (symmetry; apply andb_true_iff; split; [apply Z.leb_le|apply Z.ltb_lt]; lia). lia. }
+  simpl (cnt_range _ d 1). pose proof (pow2_pos d Hd). destruct (nthZ m' d >? 0); lia.
+Qed.
+
+Record stack_ok (c : coo) : Prop := {
+  so_depth : 0 <= depth c < zlen (mn c);
+  so_zeros : zeros_above (mn c) (depth c);
+  so_chain : chain_from (mn c) 0 (depth c);
+  so_ind   : Z.abs (nthZ (mn c) 0) <= ind c;
+  so_keys  : keys_nonneg (live c) }.
+
+Lemma msd_ok c :
+  stack_ok c -> ind c <= cap c -> cnt (mn c) (depth c) + 1 < 2 ^ (zlen (mn c) - 1) ->
+  exists c',
+    merge_sum_duplicates c = Ok c' /\ stack_ok c' /\
+    cap c' = cap c /\ zlen (mn c') = zlen (mn c) /\ 0 <= ind c' <= ind c /\ Z.abs (nthZ (mn c') 0) = ind c' /\
+    (forall k, sumby (live c') k = sumby (live c) k) /\
+    cnt (mn c') (depth c') <= cnt (mn c) (depth c) + 1 /\
+    (depth c' = depth c \/ (depth c' = depth c + 1 /\ 2 ^ depth c <= cnt (mn c) (depth c) + 1)).
+Proof.
+  intros [Hd Hz Hch Hi Hk] Huc Hcnt.
+  destruct (msd_loop_ok (Z.to_nat (depth c)) 0 c) as (c1 & nd & L1 & L2 & L3 & L4 & L5 & L6 & L7 & L8 & L9);
+    auto; try lia.
+  unfold merge_sum_duplicates. rewrite L1. simpl bind.
+  destruct nd.
+  - (* every level occupied: a new level *)
+    destruct (L8 eq_refl) as [Em Hpos]. rewrite Em, L3.
+    assert (Hc : cnt (mn c) (depth c) = 2 ^ depth c - 1) by (apply cnt_all_pos; [lia|exact Hpos]).
+    assert (Hroom : depth c + 1 < zlen (mn c)).
+    { assert (2 ^ depth c < 2 ^ (zlen (mn c) - 1)) by lia.
+      apply Z.pow_lt_mono_r_iff in H; lia. }
+    rewrite setZ_ok by (rewrite zlen_fill_prefix; lia). simpl bind.
+    eexists. split; [reflexivity|].
+    set (m' := upd (fill_prefix (mn c) (depth c) (- ind c1)) (Z.to_nat (depth c)) (ind c1)).
+    assert (N : forall j, nthZ m' j = if j =? depth c then ind c1
+                                     else if (0 <=? j) && (j <? depth c) then - ind c1 else nthZ (mn c) j).
+    { intros j. unfold m'. apply nthZ_carry. lia. }
+    assert (Lm : zlen m' = zlen (mn c)) by (unfold m'; rewrite zlen_upd, zlen_fill_prefix; reflexivity).
+    split; [constructor; simpl|].
+    + lia.
+    + intros j Hj. rewrite N.
+      replace (j =? depth c) with false by (symmetry; apply Z.eqb_neq; lia).
+      replace ((0 <=? j) && (j <? depth c)) with false
+        by (symmetry; apply andb_false_iff; right; apply Z.ltb_ge; lia).
+      apply Hz. lia.
+    + intros j Hj. rewrite !N.
+      destruct (Z.eq_dec j (depth c)) as [->|Hne].
+      * rewrite Z.eqb_refl.
+        replace (depth c + 1 =? depth c) with false by (symmetry; apply Z.eqb_neq; lia).
+        replace ((0 <=? depth c + 1) && (depth c + 1 <? depth c)) with false
+          by (symmetry; apply andb_false_iff; right; apply Z.ltb_ge; lia).
+        rewrite (Hz (depth c + 1)) by lia. simpl. lia.
+      * replace (j =? depth c) with false by (symmetry; apply Z.eqb_neq; lia).
+        replace ((0 <=? j) && (j <? depth c)) with true
+          by (symmetry; apply andb_true_iff; split; [apply Z.leb_le|apply Z.ltb_lt]; lia).
+        destruct (j + 1 =? depth c) eqn:E1; [lia|].
+        replace ((0 <=? j + 1) && (j + 1 <? depth c)) with true
+          by (symmetry; apply andb_true_iff; split; [apply Z.leb_le|apply Z.ltb_lt; apply Z.eqb_neq in E1]; lia).
+        lia.
+    + rewrite N. destruct (0 =? depth c) eqn:E0; [lia|].
+      replace ((0 <=? 0) && (0 <? depth c)) with true
+        by (symmetry; apply andb_true_iff; split; [apply Z.leb_le|apply Z.ltb_lt; apply Z.eqb_neq in E0]; lia).
+      lia.
+    + exact L7.
+    + simpl. split; [exact L2|]. split; [exact Lm|]. split; [lia|].
+      split.
+      { rewrite N. destruct (0 =? depth c) eqn:E0; [lia|].
+        replace ((0 <=? 0) && (0 <? depth c)) with true
+          by (symmetry; apply andb_true_iff; split; [apply Z.leb_le|apply Z.ltb_lt; apply Z.eqb_neq in E0]; lia).
+        lia. }
+      split; [exact L6|].
+      split.
+      { pose proof (cnt_newdepth (mn c) (depth c) (ind c1)) as Q. fold m' in Q. lia. }
+      right. split; [reflexivity|]. lia.
+  - (* the carry stopped at the free level i' *)
+    destruct (L9 eq_refl) as (i' & I1 & I2 & I3 & I4 & I5).
+    exists c1. split; [reflexivity|].
+    assert (N : forall j, nthZ (mn c1) j = if j =? i' then ind c1
+                                          else if (0 <=? j) && (j <? i') then - ind c1 else nthZ (mn c) j).
+    { intros j. rewrite I5. apply nthZ_carry. lia. }
+    split; [constructor|].
+    + lia.
+    + rewrite L3. intros j Hj. rewrite N.
+      replace (j =? i') with false by (symmetry; apply Z.eqb_neq; lia).
+      replace ((0 <=? j) && (j <? i')) with false
+        by (symmetry; apply andb_false_iff; right; apply Z.ltb_ge; lia).
+      apply Hz. lia.
+    + rewrite L3. intros j Hj. rewrite !N.
+      destruct (Z.eq_dec j i') as [->|Hne].
+      * rewrite Z.eqb_refl.
+        replace (i' + 1 =? i') with false by (symmetry; apply Z.eqb_neq; lia).
+        replace ((0 <=? i' + 1) && (i' + 1 <? i')) with false
+          by (symmetry; apply andb_false_iff; right; apply Z.ltb_ge; lia).
+        specialize (Hch i' ltac:(lia)). lia.
+      * replace (j =? i') with false by (symmetry; apply Z.eqb_neq; lia).
+        destruct (Z_lt_le_dec j i').
+        -- replace ((0 <=? j) && (j <? i')) with true
+             by (symmetry; apply andb_true_iff; split; [apply Z.leb_le|apply Z.ltb_lt]; lia).
+           destruct (j + 1 =? i') eqn:E1; [lia|].
+           replace ((0 <=? j + 1) && (j + 1 <? i')) with true
+             by (symmetry; apply andb_true_iff; split; [apply Z.leb_le|apply Z.ltb_lt; apply Z.eqb_neq in E1]; lia).
+           lia.
+        -- replace ((0 <=? j) && (j <? i')) with false
+             by (symmetry; apply andb_false_iff; right; apply Z.ltb_ge; lia).
+           replace (j + 1 =? i') with false by (symmetry; apply Z.eqb_neq; lia).
+           replace ((0 <=? j + 1) && (j + 1 <? i')) with false
+             by (symmetry; apply andb_false_iff; right; apply Z.ltb_ge; lia).
+           apply Hch. lia.
+    + rewrite N. destruct (0 =? i') eqn:E0; [lia|].
+      replace ((0 <=? 0) && (0 <? i')) with true
+        by (symmetry; apply andb_true_iff; split; [apply Z.leb_le|apply Z.ltb_lt; apply Z.eqb_neq in E0]; lia).
+      lia.
+    + exact L7.
+    + split; [exact L2|]. split; [exact L4|]. split; [lia|].
+      split.
+      { rewrite N. destruct (0 =? i') eqn:E0; [lia|].
+        replace ((0 <=? 0) && (0 <? i')) with true
+          by (symmetry; apply andb_true_iff; split; [apply Z.leb_le|apply Z.ltb_lt; apply Z.eqb_neq in E0]; lia).
+        lia. }
+      split; [exact L6|].
+      split.
+      { rewrite L3, I5. apply cnt_carry; try lia. intros j Hj. apply I2. lia. }
+      left. exact L3.
+Qed.
